@@ -6,6 +6,7 @@ not modelled; the race detector (harness built with -race, seeded yields) serves
 a failing schedule, never as evidence of absence.
 -/
 import WrglModel.Model.Pool
+import WrglModel.Model.PBar
 import WrglModel.Lemmas.C16
 import WrglModel.Gen.Facts
 namespace Wrgl
@@ -69,5 +70,32 @@ theorem C16_error_report_blocks_witness : sendAll 1 [true, true] 0 = none := by 
 
 /-- the progress bar objects shared by the workers are created lazily under a lock -/
 theorem C16_fact_pbarLazyInitLocked : Facts.pbarLazyInitLocked = true := by decide
+
+/-- `pbar.bar.Done()` drives a bar with a fixed total to it before waiting (regenerated fact) -/
+theorem C16_fact_pbarDoneForcesCompletion : Facts.pbarDoneForcesCompletion = true := by decide
+
+/-- Finishing a progress bar always returns: whatever state the bar is in — created with or without
+    a total, wherever its counter stands — `Done()` leaves it completed, so the `Wait()` that
+    follows cannot block. (`wrgl merge` finishes its bar when the merge channel closes, at
+    whatever progress the last tick reported.) The bound is the int64 range of the real field. -/
+theorem C16_pbar_done_returns (s : PBarSt) (h : s.total ≤ maxInt64) :
+    (s.done Facts.pbarDoneForcesCompletion).completed = true := by
+  rw [C16_fact_pbarDoneForcesCompletion]
+  unfold PBarSt.done
+  by_cases hc : s.completed = true
+  · simp [hc]
+  · by_cases ht : s.trig = true
+    · have h0 : (0 : Int) ≤ maxInt64 := by decide
+      have hm : ¬ (maxInt64 < 0) := by omega
+      simp [hc, ht, PBarSt.mpbSetTotal, PBarSt.mpbSetCurrent, PBarSt.settle, hm, h]
+    · simp [hc, ht, PBarSt.mpbSetTotal]
+
+/-- the premise is met by a live state: a bar with total 10 standing at 5 -/
+example : ((PBarSt.new 10).step (.setCurrent 5)).total ≤ maxInt64 ∧
+    ((PBarSt.new 10).step (.setCurrent 5)).completed = false := by decide
+
+/-- … and without that step a bar with a total that stands below it is waited for forever — the
+    defect that was repaired (a merge ending between two progress ticks hung `wrgl merge`). -/
+theorem C16_pbar_done_blocks_witness : pbarDoneReturns false 10 [.setCurrent 5] = false := by decide
 
 end Wrgl
